@@ -103,7 +103,21 @@ def theorem_status(thm_file: str):
     if rc != 0:
         return False, {n: "not checked (file does not compile)" for n in names}, out
     # split output into Print Assumptions answers, in order of appearance
-    answers = re.findall(r"(Closed under the global context|Axioms:\n(?:.+\n?)+?)(?=\n\S|\Z|Closed under|Axioms:)", out)
+    answers, cur = [], None
+    for line in out.splitlines():
+        if line.startswith("Closed under the global context"):
+            if cur is not None:
+                answers.append(cur)
+                cur = None
+            answers.append("Closed")
+        elif line.startswith("Axioms:"):
+            if cur is not None:
+                answers.append(cur)
+            cur = "Axioms:\n"
+        elif cur is not None:
+            cur += line + "\n"
+    if cur is not None:
+        answers.append(cur)
     printed = re.findall(r"^\s*Print Assumptions\s+([A-Za-z0-9_'.]+)\s*\.", strip_comments(src), re.M)
     status = {}
     allow = ALLOWED_AXIOMS
@@ -336,6 +350,12 @@ def check(mod, tier="quick", seed=0, replay=None):
 
         obs, trees, corr_bad, ok_bad, model_bad = evaluate(cases)
         n_eval = len(cases)
+        if os.environ.get("VERIF_DEBUG"):
+            for i in sorted(set(corr_bad) | set(ok_bad))[: int(os.environ["VERIF_DEBUG"])]:
+                print("DEBUG case", i, "corr_bad" if i in corr_bad else "", "ok_bad" if i in ok_bad else "")
+                print("   case :", json.dumps(cases[i]))
+                print("   impl :", json.dumps(coqlit.sx_to_json(trees[i])), getattr(obs[i], "detail", ""))
+                print("   model:", json.dumps(model_obs(mod, mod.emit_case(cases[i]), work)))
         known, _fixed = load_findings(prop)
         reported_known = set()
 
